@@ -78,7 +78,8 @@ def inpOf : Json → Option Inp
   | _ => none
 
 def quirksOf (s : String) : Quirks :=
-  { refail := s.contains 'r', oneLevel := s.contains 'o', topUnguarded := s.contains 't' }
+  { refail := s.contains 'r', oneLevel := s.contains 'o', topUnguarded := s.contains 't',
+    nestedSurvive := s.contains 'n' }
 
 def n (k : Nat) : Json := .num (Int.ofNat k)
 def t (s : String) : Json := .str s.toList
